@@ -205,6 +205,14 @@ static int k_trsv(const case_t *c, rng_t *rng, csc_t *G)
             for (int u = 0; u < 2; ++u) for (int t = 0; t < 3; ++t) {
                 const char *dg = u == 0 ? "U" : "N";
                 for (int_t i = 0; i < n; ++i) x[i] = MKE(rng_sym(rng), rng_sym(rng));
+                {   /* sparse right-hand sides: exact zeros travel through the substitution (zero-skip paths) */
+                    int xz = (int)cint(c, "xzero", 0); size_t unit = n ? (size_t)rng_int(rng, n) : 0;
+                    for (int_t i = 0; i < n && xz; ++i) {
+                        int z = xz == 1 ? rng_u01(rng) < 0.6 : xz == 2 ? ((size_t)i != unit) : xz == 3 ? 1 : (i < n / 2);
+                        if (xz == 5) z = (i >= n / 2);
+                        if (z) x[i] = MKE(0, 0);
+                    }
+                }
                 memcpy(x0, x, n * sizeof(elem_t));
                 int_t tinfo = 0;
                 hx_xerbla_count = 0;
